@@ -1,5 +1,5 @@
 """Property table: scope text per claimed property (level, bounds, what is outside the claim)."""
-from .props import prop
+from ..props import prop
 
 prop(
     "C14",
